@@ -35,6 +35,10 @@ PURE_FUNCS = {"len", "isinstance", "str", "bool", "int", "float", "sorted", "min
               "hasattr", "callable", "issubclass", "any", "all", "sum"}
 
 
+_DEREF_CACHE = {}  # (id of a function node, local name) -> the attribute chain the local is bound to once, or None
+_FN_NAMES = {}     # id of a function node -> names occurring in it
+
+
 class FlowPolicy(Policy):
     inline_depth = 0
     loop_unroll = 2
@@ -66,7 +70,6 @@ class FlowPolicy(Policy):
         # tracks as an event is interpreted, not left opaque - so extracting some lines into a helper (method, nested or module-level function) changes nothing
         self.auto_inline = True
         self.free_inline = set()
-        self._fn_names = {}
         self.auto_inline_max_stmts = 30
         if inline:
             self.inline_depth = 3
@@ -168,14 +171,17 @@ class FlowPolicy(Policy):
         if fn is not None and not isinstance(fn, ast.Lambda) and var.isidentifier():
             # a local bound once to an attribute read (`future = self._future`): the call is the call on that attribute
             from .repo import deref_local, dotted
-            v = deref_local(fn, ast.Name(id=var, ctx=ast.Load()))
-            d = dotted(v) if not isinstance(v, ast.Name) else None
+            ck = (id(fn), var)
+            if ck not in _DEREF_CACHE:
+                v = deref_local(fn, ast.Name(id=var, ctx=ast.Load()))
+                _DEREF_CACHE[ck] = dotted(v) if not isinstance(v, ast.Name) else None
+            d = _DEREF_CACHE[ck]
             if d and f"{d}.{meth}" in known:
                 return f"{d}.{meth}", cfg
         if var not in cfg.env:
             return label, cfg
         key = id(fn)
-        if key not in self._fn_names:
+        if key not in _FN_NAMES:
             names = set()
             if fn is not None:
                 for n in ast.walk(fn):
@@ -183,9 +189,9 @@ class FlowPolicy(Policy):
                         names.add(n.id)
                     elif isinstance(n, ast.arg):
                         names.add(n.arg)
-            self._fn_names[key] = names
+            _FN_NAMES[key] = names
         cands = [k for k in known if k.count(".") == 1 and k.split(".")[1] == meth and k.split(".")[0] not in ("self", "cls") and k.split(".")[0].isidentifier()
-                 and k.split(".")[0] not in self._fn_names[key] and k.split(".")[0] not in self.globals_]
+                 and k.split(".")[0] not in _FN_NAMES[key] and k.split(".")[0] not in self.globals_]
         if len(cands) != 1:
             return label, cfg
         want = cands[0].split(".")[0]
